@@ -97,6 +97,14 @@ FUNCS = {
     "rep": lambda x: tuple(range(1, x + 1)),
     "fst": lambda x: x[0],
 }
+# the Batch collection (streamz/batch.py): the catalogue function is given to Batch.map / .filter / .pluck, which build a
+# stream-level map through collection.map_partitions; SyncFlow knows the resulting node as map with f = "b_..."
+BATCH = {
+    "b_inc": lambda b: b.map(_uf(FUNCS["inc"])),
+    "b_pair": lambda b: b.map(_uf(FUNCS["pair"])),
+    "b_even": lambda b: b.filter(_uf(PREDS["even"])),
+    "b_pl1": lambda b: b.pluck(1),
+}
 STARFUNCS = {
     "add2": lambda a, b: a + b,
     "tup": lambda *a: tuple(a),
@@ -231,6 +239,7 @@ def build(prog, ntags=0, stream_kwargs=None, sink_factory=None):
     nodes = [None]
     sink_out = {}
     later = []
+    pending = {}
     for i, nd in enumerate(prog, start=1):
         k = nd["kind"]
         ups_now = [u for u in nd["ups"] if u < i]
@@ -243,8 +252,15 @@ def build(prog, ntags=0, stream_kwargs=None, sink_factory=None):
                 s = Stream(upstream=U[0])
             else:
                 s = Stream(**skw)
+        elif k == "map" and nd["f"] in BATCH:
+            from streamz.batch import Batch
+            s = BATCH[nd["f"]](Batch(stream=U[0])).stream
         elif k == "map":
             s = U[0].map(_uf(FUNCS[nd["f"]]))
+        elif k == "starmap" and nd["f"] == "cat":
+            # map_partitions over two streaming collections builds zip + map(apply_args) in one call: the zip node of the
+            # program (kind zip, f = "batch") was left pending for this node
+            s = pending.pop(nd["ups"][0])
         elif k == "starmap":
             s = U[0].starmap(_uf(STARFUNCS[nd["f"]]))
         elif k == "filter":
@@ -258,6 +274,12 @@ def build(prog, ntags=0, stream_kwargs=None, sink_factory=None):
                 kw["returns_state"] = True
             if nd["b2"]:
                 kw["with_state"] = True
+            if nd["f"] == "bsum":
+                from streamz.batch import Batch
+                s = Batch(stream=U[0]).sum().stream
+                s._vid = i
+                nodes.append(s)
+                continue
             s = U[0].frequencies() if nd["f"] == "freq" else \
                 (U[0].scan if nd.get("m") == 1 else U[0].accumulate)(_uf(BINS[nd["f"]]), **kw)
         elif k == "slice":
@@ -276,6 +298,9 @@ def build(prog, ntags=0, stream_kwargs=None, sink_factory=None):
             if nd["m"]:
                 kw["maxsize"] = nd["m"]
             s = U[0].unique(**kw)
+        elif k == "flatten" and nd["f"] == "batch":
+            from streamz.batch import Batch
+            s = Batch(stream=U[0]).to_stream()
         elif k == "flatten":
             s = U[0].concat() if nd.get("b1") else U[0].flatten()
         elif k == "pluck":
@@ -288,6 +313,12 @@ def build(prog, ntags=0, stream_kwargs=None, sink_factory=None):
                 s = U[0].collect(cache=__import__("collections").deque()) if nd.get("b1") else U[0].collect()
         elif k == "union":
             s = U[0].union(*U[1:])
+        elif k == "zip" and nd["f"] == "batch":
+            from streamz.batch import Batch
+            from streamz.collection import map_partitions
+            res = map_partitions(_uf(lambda a, b: list(a) + list(b)), Batch(stream=U[0]), Batch(stream=U[1]))
+            pending[i] = res.stream
+            s = res.stream.upstreams[0]
         elif k == "zip":
             args = list(U)
             for pos, val in nd["lits"]:
